@@ -217,6 +217,8 @@ def build_operators(spec_ops, params, joint):
             w_, c_ = joint._c15["coal"].distribution().sufficient_statistics(joint._c15["heights"].tensor)
             o["w"], o["c"] = w_.tolist(), [float(v) for v in c_.tolist()]
         elif o["kind"] == "hmc":
+            if o.get("divergence_threshold") is not None:
+                kw["divergence_threshold"] = o["divergence_threshold"]  # documented option: only a warning is printed
             inner = LeapfrogIntegrator(f"lf{i}", o["steps"], o["scale"])
             integ = IntegProxy(inner)
             mass = Parameter(f"mass{i}", torch.tensor(o["mass"], dtype=pdtype))
@@ -1260,6 +1262,15 @@ def true_hastings(cfg, r):
         return block_true_hastings(o, r)
     if kind == "hmc":
         if math.isinf(r["hr"]):
+            n_draws = sum(1 for e in r["events"] if e[0] == "normal")
+            if r.get("returned") and n_draws < 10:
+                # fewer than the ten trials were used and the last one ran its trajectory to the end: the operator HAS a
+                # proposal; its Hastings term is the kinetic change, not "no proposal"
+                mass_ = r.get("mass_now", o["mass"])
+                im_ = inv_mass(mass_)
+                ev_ = [e for e in r["events"] if e[0] == "normal"]
+                return None, ("the operator completed a trajectory (trial %d of 10) but returned inf instead of K(p0) - K(pL) = %r"
+                              % (n_draws, kin_float(im_, ev_[-1][1]) - kin_float(im_, r["returned"][-1])))
             return None, None
         ev = [e for e in r["events"] if e[0] == "normal"]
         if not ev or not r.get("returned"):
@@ -2029,6 +2040,10 @@ def gen_cfg(rng, family, adapt, iterations):
             t["lo"], t["hi"] = init[0][0] - half_band, init[0][0] + half_band
             ops[0]["lo"], ops[0]["hi"] = t["lo"], t["hi"]
         exact = True
+    for o_ in ops:
+        if o_["kind"] == "hmc" and o_.get("via") != "json" and rng.random() < 0.6:
+            # documented option the default never exercises: the energy-error threshold of the divergence WARNING
+            o_["divergence_threshold"] = rng.choice([0.05, 0.2, 1.0, 5.0])
     any_adapt = any(o["adapt"] or o.get("adaptors") for o in ops)
     loggers = [{"file": rng.random() < 0.75, "every": rng.choice([1, 1, 2, 3]), "delimiter": rng.choice([None, "\t"])}
                for _ in range(rng.choice([1, 2, 3]))]
